@@ -136,6 +136,12 @@ def b_next(E, st, node, args, kw):
             if it:
                 return [(st, it[0], None)]
             return [(st, args[1], None)] if len(args) > 1 else [(st, None, ExcV("StopIteration"))]
+        if is_z3(g) and g.sort() == U:
+            # opaque iterator: an effect that yields an arbitrary item or is exhausted
+            outs = E.effect(st, "next", (g,), {}, "next", may_raise=True, raises="StopIteration")
+            if len(args) > 1:
+                outs = [(s_, (args[1] if e_ is not None else v_), None) for s_, v_, e_ in outs]
+            return outs
         raise Unsupported("next() of a non-comprehension iterator")
     seq = g.seq
     i = E.fresh("first", z3.IntSort())
